@@ -11,6 +11,7 @@ pub fn run(args: &vcore::Args) {
         "core" => GenConfig::core(),
         "client" => GenConfig::client_graph(),
         "advanced" => GenConfig::advanced(),
+        "risky" => GenConfig::everything().risky(),
         _ => GenConfig::everything(),
     };
     let tapes = vcore::generate_values(args.seed, n, &tape_strategy(400));
@@ -85,6 +86,7 @@ pub fn shrink(args: &vcore::Args) {
         "core" => GenConfig::core(),
         "client" => GenConfig::client_graph(),
         "advanced" => GenConfig::advanced(),
+        "risky" => GenConfig::everything().risky(),
         _ => GenConfig::everything(),
     };
     let a2 = vcore::Args { property: "probe".into(), ..args.clone() };
@@ -120,6 +122,11 @@ pub fn shrink(args: &vcore::Args) {
                 }
             }
             println!("---- {}", fail.message);
+            if let Some(out) = args.rest.get(2) {
+                let doc = serde_json::json!({"property": "C08", "kind": "shrunk-inproc", "observed": fail.message, "input": {"kind": "Valid", "note": "", "files": r.files}});
+                std::fs::write(out, serde_json::to_string_pretty(&doc).unwrap()).unwrap();
+                println!("wrote {out}");
+            }
         }
         None => println!("not found"),
     }
